@@ -111,16 +111,31 @@ def b_len(eng, n, st):
         return IntV(0)
     if isinstance(v.ty, TextT):
         return Val(z3.Length(v.t), INT)
+    if isinstance(v.ty, StrT):
+        f = eng.uf("strlen", [STR], INT)
+        eng.assumptions_used.add("len() of an identity string is an uninterpreted function (>= 0, 0 exactly for '')")
+        st.assume(z3.And(f(v.t) >= 0, (f(v.t) == 0) == (v.t == str_code(""))))
+        return Val(f(v.t), INT)
     if isinstance(v.ty, ObjT) and "__len__" in getattr(v.ty, "dunder", {}):
         f = v.ty.dunder["__len__"]
-        return Val(v.ty.get(v.t, f), INT)
+        fv = Val(v.ty.get(v.t, f), v.ty.fields[f])
+        if fv.ty == INT:
+            return fv
+        v = fv
     if isinstance(v.ty, (SetT, DictT)):
-        card = eng.uf("card_" + v.ty.name.replace("<", "_").replace(">", "_").replace(",", "_"), [v.ty], INT)
-        eng.assumptions_used.add("len() of a set/dict is an uninterpreted cardinality function (>= 0)")
-        t = card(v.t)
+        has = v.ty.has(v.t) if isinstance(v.ty, DictT) else v.t
+        kty = v.ty.k if isinstance(v.ty, DictT) else v.ty.elt
+        t = card_of(eng, has, kty)
         st.assume(t >= 0)
         return Val(t, INT)
     raise Unsupported("len() of %s at line %s" % (v.ty, getattr(n, "lineno", "?")))
+
+
+def card_of(eng, has, kty):
+    """cardinality of a membership array: uninterpreted, tied to the ghost key enumeration in key_order (len(keyseq) == card)"""
+    eng.assumptions_used.add("len() of a set/dict is an uninterpreted cardinality function (>= 0), equal to the length of its ghost key enumeration")
+    card = eng.uf("card_" + kty.name.replace("<", "_").replace(">", "_").replace(",", "_").replace(" ", ""), [SetT(kty)], INT)
+    return card(has)
 
 
 def atoi(eng):
@@ -194,6 +209,41 @@ def b_list(eng, n, st):
             p = eng.ev(inner.args[1], st)
             eng.assumptions_used.add("assumed: " + ASSUMED["re.split-path"])
             return path_tokens(eng, p, st, n)
+    if isinstance(a, ast.Call) and ast.unparse(a.func) == "filter" and isinstance(a.args[0], ast.Lambda):
+        # list(filter(lambda x: P(x), L)): the elements of L that satisfy P, in L's order (ghost position maps both ways)
+        lam = a.args[0]
+        L = eng.ev(a.args[1], st) if not (isinstance(a.args[1], ast.Call) and ast.unparse(a.args[1].func) == "list") else b_list(eng, a.args[1], st)
+        if isinstance(L.ty, ListT):
+            eng.assumptions_used.add("assumed: list(filter(P, L)) = the elements of L satisfying P, in order")
+            ty = L.ty
+            F = Val(ty.fresh("filtered"), ty)
+            fpos = z3.FreshConst(z3.ArraySort(z3.IntSort(), z3.IntSort()), "fpos")
+            finv = z3.FreshConst(z3.ArraySort(z3.IntSort(), z3.IntSort()), "finv")
+            j, i2 = z3.FreshConst(z3.IntSort(), "fj"), z3.FreshConst(z3.IntSort(), "fi")
+            nm = lam.args.args[0].arg
+
+            def pred(t):
+                saved = st.env.get(nm)
+                st.env[nm] = Val(t, ty.elt)
+                eng.in_spec += 1
+                try:
+                    return eng.truthy(eng.ev(lam.body, st))
+                finally:
+                    eng.in_spec -= 1
+                    if saved is None:
+                        st.env.pop(nm, None)
+                    else:
+                        st.env[nm] = saved
+            LF, LL = ty.len(F.t), ty.len(L.t)
+            st.assume(LF >= 0)
+            st.assume(z3.ForAll([j], z3.Implies(z3.And(0 <= j, j < LF), z3.And(0 <= fpos[j], fpos[j] < LL, z3.Select(ty.arr(L.t), fpos[j]) == z3.Select(ty.arr(F.t), j),
+                                                                            pred(z3.Select(ty.arr(F.t), j)), finv[fpos[j]] == j))))
+            st.assume(z3.ForAll([j, i2], z3.Implies(z3.And(0 <= j, j < i2, i2 < LF), fpos[j] < fpos[i2])))
+            st.assume(z3.ForAll([i2], z3.Implies(z3.And(0 <= i2, i2 < LL, pred(z3.Select(ty.arr(L.t), i2))), z3.And(0 <= finv[i2], finv[i2] < LF, fpos[finv[i2]] == i2))))
+            if "filter_pos" in eng.c.ghost:
+                st.env["filter_pos"] = Val(fpos, MapT(INT, INT))
+                st.env["filter_inv"] = Val(finv, MapT(INT, INT))
+            return F
     if isinstance(a, ast.Call) and isinstance(a.func, ast.Attribute) and a.func.attr == "keys" and not a.args:
         d = eng.ev(a.func.value, st)
         if isinstance(d.ty, OrdDictT):
@@ -543,7 +593,45 @@ class RaiseNow(Exception):
         self.exc = exc
 
 
+def b_cache_positions(eng, n, st):
+    """cache_positions(posmap, L): the map that sends every element of the list L to its index and agrees with posmap elsewhere (ghost)"""
+    pm = eng.ev(n.args[0], st)
+    L = eng.ev(n.args[1], st)
+    r = z3.FreshConst(pm.ty.sort(), "cachepos")
+    i = z3.FreshConst(z3.IntSort(), "cpi")
+    x = z3.FreshConst(pm.ty.k.sort(), "cpx")
+    lt = L.ty
+    inl = z3.Exists([i], z3.And(0 <= i, i < lt.len(L.t), z3.Select(lt.arr(L.t), i) == x))
+    st.assume(z3.ForAll([x], z3.Implies(z3.Not(inl), z3.Select(r, x) == z3.Select(pm.t, x))))
+    # for members: some index holding the element (unique when the elements are pairwise different)
+    st.assume(z3.ForAll([i], z3.Implies(z3.And(0 <= i, i < lt.len(L.t)), z3.And(0 <= z3.Select(r, z3.Select(lt.arr(L.t), i)), z3.Select(r, z3.Select(lt.arr(L.t), i)) < lt.len(L.t),
+                                                                               z3.Select(lt.arr(L.t), z3.Select(r, z3.Select(lt.arr(L.t), i))) == z3.Select(lt.arr(L.t), i)))))
+    return Val(r, pm.ty)
+
+
+def b_assign_members(eng, n, st):
+    """assign_members(m, S, v): the map that sends every member of the set S to v and agrees with m elsewhere (ghost array-wide update)"""
+    m = eng.ev(n.args[0], st)
+    S = eng.ev(n.args[1], st)
+    v = eng.coerce(eng.ev(n.args[2], st), m.ty.v, st, n)
+    r = z3.FreshConst(m.ty.sort(), "assigned")
+    x = z3.FreshConst(m.ty.k.sort(), "amx")
+    st.assume(z3.ForAll([x], z3.Select(r, x) == z3.If(z3.Select(S.t, x), v.t, z3.Select(m.t, x))))
+    return Val(r, m.ty)
+
+
+def b_last_keypos(eng, n, st):
+    """last_keypos(): position map of the most recent ghost enumeration of a set (list comprehension over a set)"""
+    v = getattr(eng, "last_keypos", None)
+    if v is None:
+        raise Unsupported("last_keypos() before any set enumeration at line %s" % n.lineno)
+    return v
+
+
 BUILTINS = {
+    "last_keypos": b_last_keypos,
+    "assign_members": b_assign_members,
+    "cache_positions": b_cache_positions,
     "shift_above": b_shift_above,
     "float": b_float,
     "sorted_strs": b_sorted_strs,
@@ -612,6 +700,28 @@ def l_re_match(eng, n, st):
     return Val(eng.uf(name, [STR], BOOL)(x.t), BOOL)
 
 
+def l_re_findall(eng, n, st):
+    pat = ast.unparse(n.args[0])
+    x = eng.ev(n.args[1], st)
+    if pat == "'[><][^><]+'" and isinstance(x.ty, StrT):
+        eng.assumptions_used.add("assumed: re.findall('[><][^><]+', p) = the oriented steps of the path string p, in order")
+        v = Val(eng.uf("steps_of", [STR], LINE)(x.t), LINE)
+        st.assume(LINE.len(v.t) >= 0)
+        return v
+    raise Unsupported("re.findall(%s, ...) at line %s has no contract" % (pat, n.lineno))
+
+
+def p_empty_join(eng, n, st):
+    v = eng.ev(n.args[0], st)
+    if isinstance(v.ty, ListT) and isinstance(v.ty.elt, StrT):
+        t_ = strjoin(eng)(v.t)
+        st.assume(untok(eng)(t_) == v.t)
+        return Val(t_, STR)
+    raise Unsupported("''.join of %s at line %s" % (v.ty, n.lineno))
+
+
+PATTERN_CALLS["''.join"] = p_empty_join
+LIBCALLS["re.findall"] = l_re_findall
 LIBCALLS["re.match"] = l_re_match
 LIBCALLS["sys.exit"] = l_sys_exit
 
@@ -630,6 +740,32 @@ def m_list_append(eng, recv, n, st):
         y = z3.FreshConst(ty.elt.sort(), "cy")
         c = cnt_uf(eng, ty)
         st.assume(z3.ForAll([y], c(new.t, y) == c(recv.t, y) + z3.If(y == x.t, 1, 0)))
+    eng.assign_target(n.func.value, new, st, n)
+    return NoneV
+
+
+def m_list_pop(eng, recv, n, st):
+    ty = recv.ty
+    if n.args:
+        raise Unsupported("list.pop(i) at line %s" % n.lineno)
+    L = ty.len(recv.t)
+    eng.may_raise(st, "IndexError", L <= 0, "pop from empty list", n)
+    res = Val(z3.Select(ty.arr(recv.t), L - 1), ty.elt)
+    eng.check_alias(n.func.value, n)
+    eng.assign_target(n.func.value, Val(ty.mk(ty.arr(recv.t), L - 1), ty), st, n)
+    return res
+
+
+def m_list_remove(eng, recv, n, st):
+    """list.remove(x): ValueError unless x occurs; the result is one element shorter and keeps only elements of the old list
+    (which occurrence goes is not modelled: nothing stronger is offered to contracts)"""
+    ty = recv.ty
+    x = eng.coerce(eng.ev(n.args[0], st), ty.elt, st, n, "list element")
+    i = z3.FreshConst(z3.IntSort(), "lr")
+    L = ty.len(recv.t)
+    eng.may_raise(st, "ValueError", z3.Not(z3.Exists([i], z3.And(0 <= i, i < L, z3.Select(ty.arr(recv.t), i) == x.t))), "list.remove(x): x not in list", n)
+    new = Val(ty.mk(z3.FreshConst(z3.ArraySort(z3.IntSort(), ty.elt.sort()), "removed"), L - 1), ty)
+    eng.check_alias(n.func.value, n)
     eng.assign_target(n.func.value, new, st, n)
     return NoneV
 
@@ -791,6 +927,15 @@ def m_str_decode(eng, recv, n, st):
 
 def m_str_split_tab(eng, recv, n, st):
     a = eng.ev(n.args[0], st) if n.args else None
+    if len(n.args) == 2 and isinstance(n.args[1], ast.Constant) and isinstance(n.args[1].value, int) and n.args[1].value >= 1 \
+            and z3.is_int_value(z3.simplify(a.t)) and z3.simplify(a.t).as_long() == str_code(":"):
+        # s.split(":", m): between 1 and m+1 parts (uninterpreted)
+        m = n.args[1].value
+        v = Val(eng.uf("split_colon_%d" % m, [STR], LINE)(recv.t), LINE)
+        st.assume(z3.And(LINE.len(v.t) >= 1, LINE.len(v.t) <= m + 1))
+        return v
+    if len(n.args) > 1:
+        raise Unsupported("str.split with maxsplit at line %s" % n.lineno)
     for sep, fn in ((":", "split_colon"), ("-", "split_dash")):
         if a is not None and z3.is_int_value(z3.simplify(a.t)) and z3.simplify(a.t).as_long() == str_code(sep):
             v = Val(eng.uf(fn, [STR], LINE)(recv.t), LINE)
@@ -853,6 +998,7 @@ METHODS = {
     ("ListT", "write"): m_sink_write, ("ListT", "put"): m_sink_write, ("ListT", "tell"): m_sink_tell, ("StrT", "rstrip"): m_str_rstrip, ("StrT", "isdigit"): m_str_isdigit, ("StrT", "replace"): m_str_replace,
     ("StrT", "decode"): m_str_decode, ("StrT", "split"): m_str_split_tab,
     ("StrT", "startswith"): b_startswith,
+    ("ListT", "pop"): m_list_pop, ("ListT", "remove"): m_list_remove,
     ("ListT", "append"): m_list_append, ("EmptyListT", "append"): m_list_append, ("ListT", "reverse"): m_list_reverse,
     ("ListT", "sort"): m_list_sort, ("ListT", "count"): m_list_count,
     ("SetT", "add"): m_set_add, ("EmptySetT", "add"): m_set_add, ("SetT", "remove"): m_set_remove, ("SetT", "discard"): m_set_discard,
@@ -1079,6 +1225,8 @@ def iteration(eng, it, st, stmt):
         if isinstance(d.ty, DictT):
             return dict_iteration(eng, d, it.func.attr, st)
     v = eng.ev(it, st)
+    if isinstance(v.ty, OptT) and isinstance(v.ty.inner, (ListT, DictT, SetT)):
+        v = eng.coerce(v, v.ty.inner, st, stmt, "iterated value")  # TypeError on None is a safety obligation
     if isinstance(v.ty, ListT):
         return IterSrc(v.ty.len(v.t), lambda i, s: Val(z3.Select(v.ty.arr(v.t), i), v.ty.elt), listval=v)
     if isinstance(v.ty, DictT):
@@ -1098,6 +1246,7 @@ def key_order(eng, has, kty, st, ordered_keys=None):
     k = z3.FreshConst(kty.sort(), "kk")
     L = lty.len(seq.t)
     st.assume(L >= 0)
+    st.assume(L == card_of(eng, has, kty))
     st.assume(z3.ForAll([i], z3.Implies(z3.And(0 <= i, i < L), z3.And(z3.Select(has, z3.Select(lty.arr(seq.t), i)), pos[z3.Select(lty.arr(seq.t), i)] == i))))
     st.assume(z3.ForAll([k], z3.Implies(z3.Select(has, k), z3.And(0 <= pos[k], pos[k] < L, z3.Select(lty.arr(seq.t), pos[k]) == k))))
     return seq, pos
